@@ -29,6 +29,17 @@ func init() {
 		add("Set‖WeightedSize", CacheCfg{MaxWeight: 5}, two, [][]string{{"set 1"}, {"wsize"}}, "native", pbRest, 16, budget)
 		add("Set‖SetMaximum", CacheCfg{MaxSize: 5}, two, [][]string{{"set 3"}, {"setmax 1"}}, "native", pbRest, 16, budget)
 		add("Invalidate‖Set", CacheCfg{MaxSize: 2}, two, [][]string{{"inv 1"}, {"set 3"}}, "native", pbRest, 16, budget)
+		// other kinds of writers against the lock holders; the snapshot writer (iterates under the lock)
+		add("Compute‖InvalidateAll", CacheCfg{MaxSize: 5}, two, [][]string{{"cw 1"}, {"invall"}}, "native", pbRest, 16, budget)
+		add("Invalidate‖GetMaximum", CacheCfg{MaxSize: 5}, two, [][]string{{"inv 1"}, {"getmax"}}, "native", pbRest, 16, budget)
+		add("Load‖Coldest", CacheCfg{MaxSize: 5}, two, [][]string{{"load 3 val"}, {"coldest"}}, "native", pbRest, 16, budget)
+		add("ComputeIfAbsent‖WeightedSize", CacheCfg{MaxWeight: 5}, two, [][]string{{"cia 3"}, {"wsize"}}, "native", pbRest, 16, budget)
+		add("Set‖Save", CacheCfg{MaxSize: 5}, two, [][]string{{"set 1"}, {"save"}}, "native", pbRest, 16, budget)
+		add("Set‖SetMaximum(grow)", CacheCfg{MaxSize: 2}, two, [][]string{{"set 3"}, {"setmax 9"}}, "native", pbRest, 16, budget)
+		add("Set‖CleanUp‖Set", CacheCfg{MaxSize: 2}, two, [][]string{{"set 3"}, {"cleanup"}, {"set 1"}}, "native", pbRest, 16, budget)
+		add("Set‖Set(expiring)", CacheCfg{MaxSize: 2, Expiry: "writing", TTL: 100}, two, [][]string{{"set 1"}, {"set 3"}}, "native", pbRest, 16, budget)
+		// a read that finds the read buffer full asks for a drain (ring of 4 in the small-scope build)
+		add("Gets(full read buffer)‖Set", CacheCfg{MaxSize: 2}, two, [][]string{{"get 1", "get 1", "get 1", "get 1", "get 1"}, {"set 3"}}, "small", pbRest, 16, budget)
 		if thorough {
 			add("Set‖Set(expiry)", CacheCfg{MaxSize: 2, Expiry: "writing", TTL: 100}, two, [][]string{{"set 1"}, {"set 3"}}, "native", 2, 16, budget)
 			add("Set;Set‖Set", CacheCfg{MaxSize: 2}, two, [][]string{{"set 1", "set 4"}, {"set 3"}}, "native", 2, 16, budget)
